@@ -517,6 +517,74 @@ func c12Body() func(h []dsim.Rec) {
 			e.node.WriteMessageAll(tagMsg(9, 9, 9, 9)) //nolint
 		}
 	}()
+	// a second life of the same Node value (Initialize, a short while, Close): the first life
+	// released everything, so the second starts and ends like the first. Decided by a draw at the
+	// very end, so the runs up to here are the ones explored before. Custom transports are spent
+	// after one life (their ReadWriteCloser has been closed) and are left out.
+	for _, ep := range e.cfg.eps {
+		if ep.kind == epCustom {
+			return nil
+		}
+	}
+	if dsim.Choose(4) != 0 {
+		return nil
+	}
+	count("cov:second-life")
+	var ierr error
+	panicked := ""
+	func() {
+		defer func() {
+			if r := recover(); r != nil {
+				panicked = fmt.Sprint(r)
+			}
+		}()
+		ierr = e.node.Initialize()
+	}()
+	if panicked != "" {
+		dsim.Failf("second-life", "Initialize of the closed Node value panicked: %s", panicked)
+		return nil
+	}
+	if ierr != nil {
+		dsim.Record("second-init-error", ierr.Error(), nil) // whether a Node value can be initialized again is not demanded
+		return nil
+	}
+	ev := e.node.Events()
+	dsim.Go("drain2", func() {
+		for {
+			if _, ok := dsim.Recv2("drain2", ev); !ok {
+				break
+			}
+		}
+	})
+	dsim.Sleep(time.Duration(50+dsim.Choose(1500)) * time.Millisecond)
+	returned2 := false
+	t1 := e.now()
+	dsim.Record("close-call-2", "", nil, int64(t1))
+	dsim.Go("closer2", func() {
+		e.node.Close()
+		dsim.EnsureReleased("closer2")
+		e.mu.Lock()
+		returned2 = true
+		e.mu.Unlock()
+	})
+	st1 := dsim.StallTime()
+	for i := 0; i < 64; i++ {
+		net := (e.now() - t1) - (dsim.StallTime() - st1)
+		if net >= bound {
+			break
+		}
+		dsim.Sleep(bound - net)
+	}
+	dsim.Settle("after-second-close")
+	e.mu.Lock()
+	ret = returned2
+	e.mu.Unlock()
+	if !ret {
+		dsim.Failf("close-terminates", "second life of the same Node value: Close had not returned %v (simulated) after it was called at t=%v; config %s; tasks of the node still alive: %v",
+			bound, t1, cfg, nodeTasksAlive())
+		return nil
+	}
+	e.checkReleased("close-releases")
 	return nil
 }
 
